@@ -89,11 +89,21 @@ def rand_tree(r, maxdepth=3, nfiles=6, dangerous=0.0, safe_links=0.2, levels=(2,
     entries = []
     t0 = 1_000_000_000
 
+    def mt():
+        # mostly 2001-2004; sometimes the 32-bit boundary values (2038-01-19 and beyond, up to 2106)
+        if r.random() < 0.12:
+            return r.choice([0x7fffffff, 0x80000000, 0x80000001, 0xf0000000, 0xfffffffd, 4102444800, 1])   # (0xfffffffe is the file-system model's marker for "time of the run")
+        return t0 + r.randrange(10 ** 8)
+
     def fill(prefix, depth, budget):
         used = set()
         n = r.randrange(1, max(2, budget))
         for _ in range(n):
             nm = rname(r)
+            if used and r.random() < 0.25:
+                # sibling names that are proper prefixes of one another (a/ ab/ a.bak/): the reader's "still inside the directory
+                # on top of the stack?" test compares path prefixes
+                nm = r.choice(sorted(used)) + r.choice([b"b", b"2", b".bak", b"_", b"-"])
             if nm in used:
                 continue
             used.add(nm)
@@ -101,7 +111,7 @@ def rand_tree(r, maxdepth=3, nfiles=6, dangerous=0.0, safe_links=0.2, levels=(2,
             lvl = r.choice(levels)
             if k < 0.3 and depth < maxdepth:
                 perms = r.choice([0o40755, 0o40700, 0o40555 if r.random() < readonly_dirs else 0o40755, 0o40750])
-                entries.append(Entry("dir", prefix + nm + b"/", perms=perms, mtime=t0 + r.randrange(10 ** 8), level=lvl))
+                entries.append(Entry("dir", prefix + nm + b"/", perms=perms, mtime=mt(), level=lvl))
                 fill(prefix + nm + b"/", depth + 1, max(1, budget // 2))
             elif k < 0.3 + safe_links:
                 tgt = r.choice([rname(r), b"./" + rname(r), rname(r) + b"/" + rname(r),
@@ -115,6 +125,6 @@ def rand_tree(r, maxdepth=3, nfiles=6, dangerous=0.0, safe_links=0.2, levels=(2,
             else:
                 data = bytes(r.randrange(256) for _ in range(r.choice([0, 1, 10, 100, 1500])))
                 entries.append(Entry("file", prefix + nm, data=data, perms=r.choice([0o100644, 0o100600, 0o100755, 0o100444, None]),
-                                     mtime=t0 + r.randrange(10 ** 8), method=r.choice(methods), level=lvl))
+                                     mtime=mt(), method=r.choice(methods), level=lvl))
     fill(b"", 0, nfiles)
     return entries
